@@ -61,7 +61,14 @@ func (n *naiveTSO) Commit(revision uint64) {
 	//	panic("committed revision must increase continuously")
 	//}
 
-	atomic.StoreUint64(&n.committedRevision, revision)
+	// the committed revision only moves forward: two follower reads may hand in the
+	// revisions they fetched from the leader in either order
+	for {
+		committed := atomic.LoadUint64(&n.committedRevision)
+		if committed >= revision || atomic.CompareAndSwapUint64(&n.committedRevision, committed, revision) {
+			break
+		}
+	}
 	// in case leader transfer, need to update tso and pre tso
 	preTSO := atomic.LoadUint64(&n.dealRevision)
 	if preTSO < revision {
